@@ -636,32 +636,8 @@ class _Gen:
         it = Item(name, "fn")
         it.is_function = True
         r = self.rnd
-        if ("local_comptime_calls" in self.f and "recursion" in self.f and self.int_fns
-                and r.random() < 0.3):
-            it.recursive = True
-            base = self.lit(1, 9)
-            others = [f for f in self.int_fns if self.p.by_name[f].recursive] or self.int_fns
-            other = r.choice(others)
-            it.deps.add(other)
-            a1, a2, a3 = self.lit(0, 5), self.lit(0, 5), self.lit(0, 5)
-            shape = r.sample(["const", "size", "type"], r.randint(1, 3))
-
-            def render(ref, name=name, base=base, other=other, shape=tuple(shape)):
-                body = ["rest := %s(a - 1);" % name]
-                terms = ["rest"]
-                if "const" in shape:
-                    body.append("k :: comptime { %s(%s) };" % (ref(other), a1))
-                    terms.append("k")
-                if "size" in shape:
-                    body.append("buf : [comptime { usize.((%s(%s) %% 4 + 4) %% 4 + 1) }]i64;" % (ref(other), a2))
-                    terms.append("i64.(buf.len)")
-                if "type" in shape:
-                    body.append("x : comptime { if %s(%s) > 5 { i64 } else { i32 } } = 7;" % (ref(other), a3))
-                    terms.append("i64.(x)")
-                return ("%s :: (a: i64) -> i64 {\n    if a <= 0 { %s } else {\n%s        (%s) %% 997\n    }\n}"
-                        % (name, base, "".join("        %s\n" % b for b in body), " + ".join(terms)))
-
-            it.render = render
+        if False:
+            pass
         elif "recursion" in self.f and r.random() < 0.35:
             it.recursive = True
             base = self.lit(1, 9)
@@ -689,6 +665,46 @@ class _Gen:
         it.uses = lambda ref, tmp: ["emit(%s(%d));" % (ref(name), arg)]
         self.p.add(it)
         self.int_fns.append(name)
+
+    def mk_local_ct_fn(self):
+        """a recursive function that, after its own recursive call, uses comptime blocks calling
+        another (preferably recursive) function: as a constant, as an array size, as a type"""
+        r = self.rnd
+        if not self.int_fns:
+            self.f.add("recursion")
+            self.mk_fn()
+        name = self.fresh("f")
+        it = Item(name, "fn")
+        it.is_function = True
+        it.recursive = True
+        base = self.lit(1, 9)
+        others = [f for f in self.int_fns if self.p.by_name[f].recursive] or self.int_fns
+        other = r.choice(others)
+        it.deps.add(other)
+        a1, a2, a3 = self.lit(0, 5), self.lit(0, 5), self.lit(0, 5)
+        shape = r.sample(["const", "size", "type"], r.randint(1, 3))
+
+        def render(ref, name=name, base=base, other=other, shape=tuple(shape)):
+            body = ["rest := %s(a - 1);" % name]
+            terms = ["rest"]
+            if "const" in shape:
+                body.append("k :: comptime { %s(%s) };" % (ref(other), a1))
+                terms.append("k")
+            if "size" in shape:
+                body.append("buf : [comptime { usize.((%s(%s) %% 4 + 4) %% 4 + 1) }]i64;" % (ref(other), a2))
+                terms.append("i64.(buf.len)")
+            if "type" in shape:
+                body.append("x : comptime { if %s(%s) > 5 { i64 } else { i32 } } = 7;" % (ref(other), a3))
+                terms.append("i64.(x)")
+            return ("%s :: (a: i64) -> i64 {\n    if a <= 0 { %s } else {\n%s        (%s) %% 997\n    }\n}"
+                    % (name, base, "".join("        %s\n" % b for b in body), " + ".join(terms)))
+
+        it.render = render
+        arg = r.randint(0, 4)
+        it.uses = lambda ref, tmp: ["emit(%s(%d));" % (ref(name), arg)]
+        self.p.add(it)
+        self.int_fns.append(name)
+        self.local_ct_fns = getattr(self, "local_ct_fns", 0) + 1
 
     def mk_mutual(self):
         """a group of 2 or 3 mutually recursive functions"""
@@ -1131,12 +1147,16 @@ class _Gen:
             menu.append(("global_reader", self.mk_global_reader, 2))
         if "struct_cast" in f:
             menu.append(("struct_cast", self.mk_struct_cast, 2))
+        if "local_comptime_calls" in f:
+            menu.append(("local_ct_fn", self.mk_local_ct_fn, 2))
         weights = [w for _, _, w in menu]
         guard = 0
         while self.count_globals() < self.n and guard < 100:
             guard += 1
             _, fn, _ = r.choices(menu, weights)[0]
             fn()
+        if "local_comptime_calls" in f and not getattr(self, "local_ct_fns", 0):
+            self.mk_local_ct_fn()
         main = Item("main", "main")
         main.is_function = True
         main.deps.add("emit")
